@@ -2,7 +2,7 @@
     are mapped to OCaml's; nat, positive, N, Z, string stay Coq datatypes).  No Extract Constant of ours. *)
 Require Extraction.
 Require Import ExtrOcamlBasic.
-Require Import Zrs.lib.RsPrelude Zrs.model.BitIO Zrs.model.FseDec Zrs.model.HufDec Zrs.model.BlockDec Zrs.model.FrameDec Zrs.model.Matcher Zrs.model.FrameEnc Zrs.model.IoNoStd Zrs.model.BitRev64 Zrs.model.SeqEnc Zrs.model.FseEnc Zrs.model.SeqSection Zrs.model.BlockEnc Zrs.model.FseNorm Zrs.model.WeightEnc Zrs.model.HufCounts.
+Require Import Zrs.lib.RsPrelude Zrs.model.BitIO Zrs.model.FseDec Zrs.model.HufDec Zrs.model.BlockDec Zrs.model.FrameDec Zrs.model.Matcher Zrs.model.FrameEnc Zrs.model.IoNoStd Zrs.model.BitRev64 Zrs.model.SeqEnc Zrs.model.FseEnc Zrs.model.SeqSection Zrs.model.BlockEnc Zrs.model.FseNorm Zrs.model.WeightEnc Zrs.model.HufCounts Zrs.model.LitComp.
 Extraction Language OCaml.
 Extraction "model.ml"
   decode_dict fdec_new fdec_set_max_window fdec_reset fdec_add_dict fdec_force_dict fdec_is_finished
@@ -11,4 +11,4 @@ Extraction "model.ml"
   fse_build_decoder fse_build_from_probabilities fse_new huf_build_decoder huf_new
   Zrs.model.Headers.read_frame_header
   mgd_new mgd_window_size commit_space mgd_start mgd_skip mgd_reset compress_frame_oracle
-  io_read_exact io_take_read io_write_all brr_new brr_run rbr_run decode_reencode huf_stream_model huf_describe_and_decode desc_bytes dist_okb read_probabilities decode_rewrite_section rewrite_raw_block fastest_first_block rewrite_blocks norm_counts weights_rewrite build_from_counts weights_from_counts.
+  io_read_exact io_take_read io_write_all brr_new brr_run rbr_run decode_reencode huf_stream_model huf_describe_and_decode desc_bytes dist_okb read_probabilities decode_rewrite_section rewrite_raw_block fastest_first_block rewrite_blocks norm_counts weights_rewrite build_from_counts weights_from_counts lit_chain literals_part.
